@@ -580,6 +580,25 @@ theorem dev_unknown_qualifier_positional :
       specPairs {} (stmtTarget exOwnSources) (stmtItems exOwnSources) (stmtFrom exOwnSources) := by
   decide +kernel
 
+/-- Why the column list must be as long as the select list (`fragStmtCols`): with fewer listed columns than items the
+    items are wired by their own names at first, every such item adds a write column, and as soon as their NUMBER reaches
+    the number of items the rest is wired by position into that mixed list.  `insert into t (c1) select a, b, c from s`:
+    `write_columns` is `[c1, a, b]` after two items, so `s.c` goes to `write_columns[2] = t.b`, not to `t.c`.  Reproduced on
+    the implementation (`s.c -> t.b`).  (The statement is not executable SQL: the counts differ.) -/
+def exShortList : Stmt :=
+  .insert .insertInto false ["t"] (some ["c1"])
+    (.select false
+      [.mk (.col [] "a") none false, .mk (.col [] "b") none false, .mk (.col [] "c") none false]
+      [.mk (.table ["s"] none false) []] none [] none) false
+
+theorem dev_collist_length_mismatch :
+    fragStmtCols {} exShortList = false ∧
+    lineageEdges (analyze {} false exShortList) =
+      [(.col "<default>.s.a" (some (.table "<default>" "s")), .col "<default>.t.a" (some (.table "<default>" "t"))),
+       (.col "<default>.s.b" (some (.table "<default>" "s")), .col "<default>.t.b" (some (.table "<default>" "t"))),
+       (.col "<default>.s.c" (some (.table "<default>" "s")), .col "<default>.t.b" (some (.table "<default>" "t")))] := by
+  decide +kernel
+
 /-- the theorem instantiated: whatever graph the analysis of `exInsert` returns, its LINEAGE edges are these three pairs -/
 example (g : LGraph) (h : analyze {} false exInsert = .ok g) (u v : Node) :
     ((u, v) ∈ g.edges ∧ g.ety u v = some .lineage) ↔
